@@ -30,8 +30,8 @@ class C14(Check):
         "real UDP/TCP sockets: a 10-probe loopback smoke run per transport is runtime observation; the server loops are "
         "otherwise driven through scripted net.PacketConn/net.Listener objects",
         "DS routing is proved as the code does it (root if registered, else the registered ancestor with the fewest "
-        "labels); with three or more nested registered zones this is not the closest enclosing parent (observation in "
-        "docs/C14.md, counted in harness_stats, not reported as a violation)",
+        "labels); with three or more nested registered zones this is not the enclosing parent zone: theorem "
+        "ds_closest_parent_refuted, known finding C14/Mux/ds-not-closest-parent (docs/C14.md)",
     ]
     trusted = [
         "octet-level model of strings.Map in CanonicalName is exact on ASCII names (decoded question names are always ASCII)",
